@@ -1,10 +1,87 @@
 import Driver.Common
-/-! C01 driver (stub: answers bad-op until the property's model is wired in). -/
-open Driver
+import Sourmash.Spec.Sample
+/-! C01 driver.  model column: observation of the executable sketch model (`MH.Vec` / `MH.Tree`) after
+the op; spec column: observation of the abstract sample (`Sample.St`) after the same op. -/
+open Driver Sample
 
-def stepC01 (s : Unit) (ws : List String) : Unit × Resp :=
+inductive Sk
+  | v (s : MH.Vec)
+  | t (s : MH.Tree)
+
+structure DSt where
+  kind : Kind := .vec
+  main : Sk := .v (MH.Vec.new 0 0 false)
+  other : Sk := .v (MH.Vec.new 0 0 false)
+  smain : St := { num := 0, maxHash := 0, track := false }
+  sother : St := { num := 0, maxHash := 0, track := false }
+
+def kvGet (ws : List String) (key : String) : Nat :=
+  match ws.filterMap (fun w => match w.splitOn "=" with
+      | [k, v] => if k == key then v.toNat? else none
+      | _ => none) with
+  | n :: _ => n
+  | [] => 0
+
+def showObs (o : Obs) : String :=
+  let sum := match o.abunds with
+    | some l => l.foldl (· + ·) 0
+    | none => o.mins.length
+  "mins=" ++ showNats o.mins ++ " abunds=" ++ (match o.abunds with | some l => showNats l | none => "none")
+    ++ " size=" ++ toString o.mins.length ++ " sum=" ++ toString sum
+    ++ " empty=" ++ (if o.mins.isEmpty then "1" else "0")
+
+def Sk.obs : Sk → Obs
+  | .v s => vecObs s
+  | .t s => treeObs s
+
+/-- apply a unary op to a model sketch; `none` = op not available on this type -/
+def Sk.apply (s : Sk) (o : Op) : Option Sk :=
+  match s, o with
+  | .v s, o => some (.v (vecStep s o))
+  | .t _, .set _ _ => none
+  | .t s, o => some (.t (treeStep s o))
+
+def Sk.merge : Sk → Sk → Option Sk
+  | .v s, .v o => some (.v (s.merge o))
+  | .t s, .t o => some (.t (s.merge o))
+  | _, _ => none
+
+def parseOp (op : String) (args : List String) : Option Op :=
+  match op, args with
+  | "add", [h, a] => some (.add h.toNat! a.toNat!)
+  | "set", [h, a] => some (.set h.toNat! a.toNat!)
+  | "rm", [h] => some (.remove h.toNat!)
+  | "rmmany", [hs] => some (.removeMany (natList hs))
+  | "clear", [] => some .clear
+  | _, _ => none
+
+def stepC01 (s : DSt) (ws : List String) : DSt × Resp :=
   match ws with
-  | "case" :: _ => (s, { model := "ok" })
+  | "case" :: _ :: ty :: rest =>
+    let num := kvGet rest "num"; let mh := kvGet rest "mh"; let onum := kvGet rest "onum"
+    let track := kvGet rest "track" == 1; let otrack := kvGet rest "otrack" == 1
+    let tree := ty == "tree"
+    ({ kind := if tree then .tree else .vec,
+       main := if tree then .t (MH.Tree.new num mh track) else .v (MH.Vec.new num mh track),
+       other := if tree then .t (MH.Tree.new onum mh otrack) else .v (MH.Vec.new onum mh otrack),
+       smain := { num := num, maxHash := mh, track := track },
+       sother := { num := onum, maxHash := mh, track := otrack } }, { model := "ok" })
+  | w :: args =>
+    let (onOther, op) := match w.splitOn "." with
+      | ["o", op] => (true, op)
+      | _ => (false, w)
+    let (tgt, src, stgt, ssrc) := if onOther then (s.other, s.main, s.sother, s.smain) else (s.main, s.other, s.smain, s.sother)
+    let res : Option (Sk × St) :=
+      if op == "merge" && args.isEmpty then
+        (tgt.merge src).map (fun t => (t, stgt.merge ssrc))
+      else match parseOp op args with
+        | some o => (tgt.apply o).map (fun t => (t, stgt.step s.kind o))
+        | none => none
+    match res with
+    | none => (s, { model := "bad-op" })
+    | some (t, st) =>
+      let s' := if onOther then { s with other := t, sother := st } else { s with main := t, smain := st }
+      (s', { model := showObs t.obs, spec := showObs st.obs })
   | _ => (s, { model := "bad-op" })
 
-def main : IO Unit := Driver.run () stepC01
+def main : IO Unit := Driver.run ({} : DSt) stepC01
